@@ -224,8 +224,8 @@ package keyvalue
 // A record made by FS.newFile: its data getter is the literal returning blob.NewBytes(nil); its data has no value
 // before the first load, which yields a fresh, empty, unlocked *blob.Bytes.
 //@ spec isNewRec(rec FileRecord) := isBaseRec(rec) && rec.(*BaseFileRecord) != nil && rec.(*BaseFileRecord).getData != nil && emptyblobfn(rec.(*BaseFileRecord).getData)
-//@ spec freshEmpty(b blob.Blob) := isType(b, *blob.Bytes) && b.(*blob.Bytes) != nil && fresh(b.(*blob.Bytes)) && blob.blobOK(b) && blob.blobLen(b) == 0 && !blob.blobLocked(b)
-//@ spec emptyBytes(b blob.Blob) := isType(b, *blob.Bytes) && b.(*blob.Bytes) != nil && allocated(b.(*blob.Bytes)) && blob.blobOK(b) && blob.blobLen(b) == 0 && !blob.blobLocked(b)
+//@ spec freshEmpty(b blob.Blob) := isType(b, *blob.Bytes) && b.(*blob.Bytes) != nil && fresh(b.(*blob.Bytes)) && blob.blobOK(b) && blob.blobLen(b) == 0 && !blob.blobLocked(b) && ref(b.(*blob.Bytes).bytes) == 0
+//@ spec emptyBytes(b blob.Blob) := isType(b, *blob.Bytes) && b.(*blob.Bytes) != nil && allocated(b.(*blob.Bytes)) && blob.blobOK(b) && blob.blobLen(b) == 0 && !blob.blobLocked(b) && ref(b.(*blob.Bytes).bytes) == 0
 //@ spec rawMode(rec FileRecord) := ite(isMemRec(rec), rec.(mem.fileRecord).mode, ite(isBaseRec(rec), rec.(*BaseFileRecord).mode, ret("keyvalue.(FileRecord).Mode", 0, rec)))
 //@ spec rawMTime(rec FileRecord) := ite(isMemRec(rec), rec.(mem.fileRecord).modTime, ite(isBaseRec(rec), rec.(*BaseFileRecord).modTime, ret("keyvalue.(FileRecord).ModTime", 0, rec)))
 
@@ -539,6 +539,11 @@ package keyvalue
 //@   ensures "data-ok" hDataOK(f)
 //@   ensures "keeps-name" [C03 C17] implies(isMem(f.fileData.fs) && old(kvHas(f.fileData.fs, f.fileData.path)), kvHas(f.fileData.fs, f.fileData.path))
 //@   ensures "mem-world" implies(isMem(f.fileData.fs), world() == old(world()))
+//@   ensures "stored-record" [C01] implies(isMem(f.fileData.fs) && old(kvHas(f.fileData.fs, f.fileData.path)) && err == nil,
+//@                     kvRec(f.fileData.fs, f.fileData.path) == old(kvRec(f.fileData.fs, f.fileData.path)) ||
+//@                     (isType(kvRec(f.fileData.fs, f.fileData.path), mem.fileRecord) && memRec(f.fileData.fs, f.fileData.path).mode == fdMode(f.fileData) &&
+//@                      memRec(f.fileData.fs, f.fileData.path).data == hData(f)))
+//@   ensures "mode-kept" implies(isMem(f.fileData.fs), fdMode(f.fileData) == old(fdMode(f.fileData)))
 //@   nopanic
 
 //@ spec isAppend(f *file) := f.flag&hackpadfs.FlagAppend != 0
@@ -612,6 +617,11 @@ package keyvalue
 //@   ensures "data-ok" hDataOK(f)
 //@   ensures "keeps-name" [C03 C17] implies(isMem(f.fileData.fs) && old(kvHas(f.fileData.fs, f.fileData.path)), kvHas(f.fileData.fs, f.fileData.path))
 //@   ensures "mem-world" implies(isMem(f.fileData.fs), world() == old(world()))
+//@   ensures "stored-record" [C01] implies(isMem(f.fileData.fs) && old(kvHas(f.fileData.fs, f.fileData.path)) && err == nil,
+//@                     kvRec(f.fileData.fs, f.fileData.path) == old(kvRec(f.fileData.fs, f.fileData.path)) ||
+//@                     (isType(kvRec(f.fileData.fs, f.fileData.path), mem.fileRecord) && memRec(f.fileData.fs, f.fileData.path).mode == fdMode(f.fileData) &&
+//@                      memRec(f.fileData.fs, f.fileData.path).data == hData(f)))
+//@   ensures "mode-kept" implies(isMem(f.fileData.fs), fdMode(f.fileData) == old(fdMode(f.fileData)))
 //@   nopanic
 
 //@ func (f *file) Chmod(mode hackpadfs.FileMode) (err error)
@@ -629,6 +639,10 @@ package keyvalue
 //@   ensures "inv" fileInv(f) && f.offset == old(f.offset) && f.closed == old(f.closed)
 //@   ensures "keeps-name" [C03 C17] implies(isMem(f.fileData.fs) && old(kvHas(f.fileData.fs, f.fileData.path)), kvHas(f.fileData.fs, f.fileData.path))
 //@   ensures "mem-world" implies(isMem(f.fileData.fs), world() == old(world()))
+//@   ensures "stored-record" [C01] implies(isMem(f.fileData.fs) && old(kvHas(f.fileData.fs, f.fileData.path)) && err == nil,
+//@                     kvRec(f.fileData.fs, f.fileData.path) == old(kvRec(f.fileData.fs, f.fileData.path)) ||
+//@                     (isType(kvRec(f.fileData.fs, f.fileData.path), mem.fileRecord) && memRec(f.fileData.fs, f.fileData.path).mode == fdMode(f.fileData) &&
+//@                      memRec(f.fileData.fs, f.fileData.path).data == hData(f)))
 //@   nopanic
 
 //@ func newDirEntry(fs hackpadfs.FS, basePath string, name string) (d *dirEntry, err error)
@@ -1009,7 +1023,8 @@ package keyvalue
 //@   ensures "parent-not-dir" [C01 C03] implies(VP(name) && !old(kvHas(fs, name)) && isCreate(flag) && old(kvHas(fs, pdir(name))) && !old(memIsDir(fs, pdir(name))),
 //@                     errIs(retErr, hackpadfs.ErrNotDir) && memSame(fs))
 //@   ensures "created" [C01 C03] implies(VP(name) && !old(kvHas(fs, name)) && isCreate(flag) && old(kvHas(fs, pdir(name))) && old(memIsDir(fs, pdir(name))) && retErr == nil,
-//@                     kvHas(fs, name) && memSameExcept(fs, name) && isType(kvRec(fs, name), mem.fileRecord) && memRec(fs, name).mode == perm & hackpadfs.ModePerm)
+//@                     kvHas(fs, name) && isType(kvRec(fs, name), mem.fileRecord) && memRec(fs, name).mode == perm & hackpadfs.ModePerm)
+//@   ensures "created-frame" [C01 C03] implies(VP(name) && !old(kvHas(fs, name)), memSameExcept(fs, name))
 //@   ensures "existing-kept" [C01 C03] implies(VP(name) && old(kvHas(fs, name)), memSameExcept(fs, name) && kvHas(fs, name))
 //@   ensures "wrapper" [C02] implies(retErr == nil, afFile != nil &&
 //@                     iff(isType(afFile, *writeOnlyFile), flag & hackpadfs.FlagWriteOnly != 0) &&
